@@ -113,6 +113,8 @@ def _child_run(cfg):
         ident = pa.get('ident', only_real_particles=False)[real]
         order = np.argsort(ident, kind='stable')
         d = {'ident': ident[order].copy(), 'nreal_first': bool(len(real) == pa.num_real_particles and (tags[:len(real)] == 0).all())}
+        trip = pa.get('trip', only_real_particles=False).reshape(-1, 3)[real][order]
+        d['trip_ok'] = bool(np.array_equal(trip, ident[order].astype(float)[:, None] + np.array([0.0, 0.25, 0.5])[None, :]))
         for p in STATE_PROPS:
             if p in pa.properties:
                 d[p] = pa.get(p, only_real_particles=False)[real][order].copy()
@@ -374,6 +376,9 @@ def execute(sc, prop):
     if problem == 'impact' and steps >= 5:
         probe('arrays_start_to_interact_late')
     for name, d in res.items():
+        if not d.get('trip_ok', True):
+            violate('strided-property-detached', 'array %s: the stride-3 property stamped on every particle no longer matches the particle '
+                    'identities at the end of the run' % name)
         if not d['nreal_first']:
             violate('real-particles-not-first', 'array %s: real particles are not the first num_real_particles at the end of the run' % name)
     # bit-identity is stated for neighbour algorithm, cache and thread settings with sorted neighbours; with re-ordering the
